@@ -157,6 +157,10 @@ func (f *Font) MakeGlyphNames() []string {
 									continue replLoop
 								}
 							}
+							if glyphNames[lig.Out] != "" {
+								// keep existing names
+								continue
+							}
 							newName := strings.Join(nn, "_")
 							glyphNames[lig.Out] = makeVariant(used, newName)
 						}
